@@ -142,7 +142,9 @@ class Encoder(object):
         with millisecond precision.
         """
         timestamp = calendar.timegm(val.utctimetuple())
-        return str(int(timestamp * 1e3 + getattr(val, 'microsecond', 0) / 1e3))
+        # exact integer arithmetic, same value as cqltypes.DateType.serialize (sub-millisecond digits dropped toward zero)
+        microseconds = timestamp * 1000000 + getattr(val, 'microsecond', 0)
+        return str(microseconds // 1000 if microseconds >= 0 else -(-microseconds // 1000))
 
     def cql_encode_date(self, val):
         """
